@@ -172,6 +172,31 @@ def mc_property(v, tier, seed, name, prof, fields=mc_suite.ALL_FIELDS, noids=Fal
                     if dx and dy and int(dx.group(1)) > int(dy.group(1)):
                         return (f"run {k}: BFS reports `{x['hdr'].split()[2]}` at depth {dx.group(1)}, but a state at depth {dy.group(1)} "
                                 f"already fails: {y['T'][0][:400]}")
+        # (h) a state's trace accounts for the state: per process the counters equal the sends / receipts in the trace, and (when no
+        #     message was duplicated or corrupted on the way) every message sent was received, dropped or is still pending
+        if not any(l.startswith("mc ") for l in lines):
+            for l in impl_out:
+                if not l.startswith(("C ", "T ")):
+                    continue
+                mt = re.search(r" T\[(.*)\]\s*$", l)
+                mx = re.search(r" X\[(.*?)\] d=", l)
+                me = re.search(r" E\[(.*?)\] A\[", l)
+                if not (mt and mx):
+                    continue
+                ents = re.findall(r"(sent|recv|drop|dupl|corr)\(([^()]*)\)", mt.group(1))
+                for pp, sc, rc in re.findall(r"(p\d+):pend=\[[^\]]*\];s=(\d+);r=(\d+)", mx.group(1)):
+                    ns = sum(1 for kd, a in ents if kd == "sent" and a.split(",")[-2] == pp)
+                    nr = sum(1 for kd, a in ents if kd == "recv" and a.split(",")[-1] == pp)
+                    if ns != int(sc) or nr != int(rc):
+                        return (f"the trace carried by a state does not lead to it: {pp} has sent {sc} / received {rc} messages, its trace "
+                                f"records {ns} sends by it and {nr} deliveries to it; state: {l[:200]}")
+                if not any(kd in ("dupl", "corr") for kd, _ in ents):
+                    nsent = sum(1 for kd, _ in ents if kd == "sent")
+                    ngone = sum(1 for kd, _ in ents if kd in ("recv", "drop"))
+                    npend = len(re.findall(r"\d+:M\(", me.group(1))) if me else 0
+                    if nsent != ngone + npend:
+                        return (f"messages are not accounted for: the state's trace records {nsent} sends but only {ngone} deliveries/losses, "
+                                f"and {npend} messages are still pending; state: {l[:200]}")
         # (g) Normal ordering mode (no `cb mode mf` for this run): a pending timer is withheld only behind an earlier pending timer
         #     of its process with a delay that is not larger; in MessagesFirst mode only while a message is pending
         def dval(tok):
@@ -384,6 +409,30 @@ def gen_mc_link_matrix(rng, tier):
             lines.append(f"cb local {p} m0 =go")
         lines.append(f"run {rng.choice(['dfs', 'bfs'])} {rng.choice(['full', 'disabled'])} inv=none goal=noev prune=none collect=none")
         out.append((f"lm{i}", ["refenum"] + lines))
+    return out
+
+
+def gen_payload_twins(rng, tier):
+    """states that differ only in the *content* of message payloads of one type and one length (and in where the boundary between
+    type and payload falls): the two delivery orders of two such messages to a process that copies them to its outbox, with a
+    timer still pending afterwards.  A state identity (or hash) that does not look at the whole payload merges them."""
+    out = []
+    n = 40 if tier == "quick" else 800
+    for i in range(n):
+        kind = rng.choice(["len", "boundary"])
+        if kind == "len":
+            t1 = t2 = "m1"; d1, d2 = rng.choice([("=a", "=b"), ("=1", "=2"), ('="x"', '="y"')])
+        else:
+            t1, t2 = "m1", "m11"; d1, d2 = "=12", "=2"
+        lines = ["node n0", "node n1", "proc p0 n0", "proc p1 n1", "proc p2 n0"]
+        # the receiver copies what it gets (type and payload) to its outbox
+        lines += [f"rule p0 0 L:m0 1 S:{t1}:{d1}:p1", f"rule p2 0 L:m0 1 S:{t2}:{d2}:p1",
+                  f"rule p1 0 M:{t1} 0 L:{t1}:$ O:t0:{rng.randint(1, 2)}", f"rule p1 0 T:t0 0 L:m4:=t"]
+        if t2 != t1:
+            lines.append(f"rule p1 0 M:{t2} 0 L:{t2}:$ O:t0:1")
+        lines += ["cb local p0 m0 =go", "cb local p2 m0 =go",
+                  f"run {rng.choice(['dfs', 'bfs'])} {rng.choice(['partial', 'partial', 'full'])} inv=none goal=noev prune=none collect=none"]
+        out.append((f"tw{i}", ["refenum"] + lines))
     return out
 
 
